@@ -85,7 +85,7 @@ def cfg_fn(rng):
 
 
 def plan(tier, seed):
-    return common.session_plan(PROP, tier, seed, quick=1600, thorough=25000)
+    return common.session_plan(PROP, tier, seed, quick=4000, thorough=50000)
 
 
 def run_shard(spec):
